@@ -123,6 +123,7 @@ INPUTS = {
 }
 INPUT_NAMES = list(INPUTS)
 ONE_PER_TYPE = ["ttml:rich", "scc:pop-on", "stl:bg", "srt:own", "vtt:own"]
+CONFIG_INPUTS = ONE_PER_TYPE + ["stl:tcp"]      # the configuration sweep; scc:paint-on / ttml:body_only only in histories / gates
 IN_TYPES = ["ttml", "scc", "stl", "srt", "vtt"]
 OUT_TYPES = ["ttml", "srt", "vtt"]
 
@@ -605,7 +606,6 @@ def _deliver(job, mode, cfg, decoy):
 # (a) equivalence
 
 def _config_key_of(job):
-  cfg = None
   try:
     cfg = effective_config(job)
   except Exception:  # pylint: disable=broad-except
@@ -615,10 +615,35 @@ def _config_key_of(job):
   keys = []
   for m in sorted(cfg):
     if isinstance(cfg[m], dict):
-      keys += [f"{m}.{k}" for k in sorted(cfg[m])]
+      keys += [f"{m}.{k}" for k in sorted(cfg[m])] or [m]
     else:
       keys.append(m)
   return "+".join(keys)
+
+
+def job_features(job):
+  """narrow discriminator of a (minimised) job: the pair and every option that is not at its default"""
+  typ = INPUTS[job["input"]][0]
+  parts = [_pair(job)]
+  if job.get("itype") is not None:
+    parts.append(f"itype={job['itype']}")
+  if job["in_name"] != "in." + typ:
+    parts.append(f"in={job['in_name']}")
+  if job.get("otype") is not None:
+    parts.append(f"otype={job['otype']}")
+  otyp = _ref_type(job.get("otype"), job["out_name"])
+  if job["out_name"] != "out." + otyp:
+    parts.append(f"out={job['out_name']}")
+  if job.get("filters"):
+    parts.append("filters=" + "+".join(job["filters"]))
+  has_file = job.get("config_file") is not None or job.get("config_file_text") is not None
+  has_inline = job.get("config") is not None or job.get("config_text") is not None
+  if has_file:
+    parts.append("cfg=file+inline" if has_inline else "cfg=file")
+  ck = _config_key_of(job)
+  if ck != "-":
+    parts.append(ck)
+  return ",".join(parts)
 
 
 def _first_diff(a: bytes, b: bytes):
@@ -628,98 +653,79 @@ def _first_diff(a: bytes, b: bytes):
           "expected": b[max(0, i - 40):i + 80].decode("utf-8", "replace"), "len_observed": len(a), "len_expected": len(b)}
 
 
-def check_equiv(case, acc):
-  job = case["job"]
+def equiv_verdict(job):
+  """Runs tt.main and the reference on the job.
+  -> dict(kind=None|'bytes'|'tt-error'|'tt-accepts'|'files'|'noout', observed, expected, note, ref=(status, value), tt_status)"""
   r = run_job_inprocess(job)
   ref_status, ref_val = r["ref"]
-  pair = _pair(job)
-  feat = case.get("feat") or _config_key_of(job)
-  disc = f"{pair},{feat}"
-  has_unknown = any(f != "lcd" for f in job.get("filters") or [])
   files = r["files"]
   tt_ok = r["status"] in ("ok", "exit0")
+  has_unknown = any(DocFilterNames.get(f) is None for f in job.get("filters") or [])
+  v = {"kind": None, "ref": r["ref"], "tt_status": r["status"], "files": files, "unknown_refused": False}
   if ref_status == "ok":
     if has_unknown and not tt_ok:
       # outside the statement: an unknown filter may also be refused, then without output
+      v["unknown_refused"] = True
       if files:
-        acc.violation("C19.reject.noout", f"{pair},unknown-filter", case, observed=sorted(files), expected="no output file")
-      acc.case("unknown-filter-refused", nontrivial=True, key=_jkey(job))
-      return
+        v.update(kind="noout", observed=sorted(files), expected="no output file", note="unknown filter refused but a file was left")
+      return v
     if not tt_ok:
-      acc.violation("C19.equiv", disc + ",tt-error", case, observed=r["detail"], expected=f"{len(ref_val)} bytes written",
-                    note="tt convert fails where the library composition succeeds")
-      acc.case("tt-error-ref-ok", nontrivial=True, key=_jkey(job))
-      return
-    want_name = job["out_name"]
-    if sorted(files) != [want_name]:
-      acc.violation("C19.equiv", disc + ",files", case, observed=sorted(files), expected=[want_name],
-                    note="files found in the output directory")
-      acc.case("wrong-files", nontrivial=True, key=_jkey(job))
-      return
-    got = files[want_name]
-    if got != ref_val:
-      acc.violation("C19.equiv", disc, case, observed=_first_diff(got, ref_val), expected="byte-identical output",
-                    note="tt convert output differs from reader -> filters -> writer composition")
-    # non-triviality: options change the bytes relative to the option-free conversion of the same input
-    nt = bool(ref_val.strip())
-    if nt and case.get("baseline", True):
-      base = mk_job(job["input"], _ref_type(job.get("otype"), job["out_name"]))
-      root = tempfile.mkdtemp(prefix="c19-")
-      try:
-        _argv, _outd, in_path = materialise(base, root)
-        with quiet_tt():
-          b_status, b_val = ref_convert(base, in_path)
-      finally:
-        shutil.rmtree(root, ignore_errors=True)
-      changed = b_status != "ok" or b_val != ref_val
-      nt = changed or bool(case.get("structural"))
-      acc.case(("ok-changed" if changed else "ok-same-as-default") + ("-unknown-filter-skipped" if has_unknown else ""),
-               nontrivial=nt, key=_jkey(job))
-    else:
-      acc.case("ok" if nt else "ok-empty-output", nontrivial=nt, key=_jkey(job))
+      v.update(kind="tt-error", observed=r["detail"], expected=f"{len(ref_val)} bytes written",
+               note="tt convert fails where the library composition succeeds")
+    elif sorted(files) != [job["out_name"]]:
+      v.update(kind="files", observed=sorted(files), expected=[job["out_name"]], note="files found in the output directory")
+    elif files[job["out_name"]] != ref_val:
+      v.update(kind="bytes", observed=_first_diff(files[job["out_name"]], ref_val), expected="byte-identical output",
+               note="tt convert output differs from the reader -> filters -> writer composition")
   else:
     # the composition itself fails (e.g. frames without fps): tt convert must fail too and leave nothing behind
     if tt_ok:
-      acc.violation("C19.equiv", disc + ",tt-accepts", case, observed={"status": r["status"], "files": sorted(files)},
-                    expected=f"error ({ref_val})", note="tt convert succeeds where the library composition raises")
+      v.update(kind="tt-accepts", observed={"status": r["status"], "files": sorted(files)}, expected=f"error ({ref_val})",
+               note="tt convert succeeds where the library composition raises")
     elif files:
-      acc.violation("C19.reject.noout", f"{pair},{feat}", case, observed=sorted(files), expected="no output file")
-    acc.case("both-error:" + ref_val.split(":")[0], nontrivial=True, key=_jkey(job))
+      v.update(kind="noout", observed=sorted(files), expected="no output file", note="an error was raised but a file was left behind")
+  return v
 
 
-def _jkey(job):
-  return json.dumps(jenc(job), sort_keys=True)
+class _Names:
+  """names of the registered document filters (looked up lazily in the explored tree)"""
+
+  @staticmethod
+  def get(name):
+    from ttconv.filters.document_filter import DocumentFilter
+    return DocumentFilter.get_filter_by_name(name)
 
 
-def shrink_job_case(case):
-  """one-step reductions of a job: drop a filter, drop a configuration section/key, plain names, inline delivery"""
-  job = case["job"]
+DocFilterNames = _Names()
 
+
+def job_reductions(job):
+  """one-step reductions of a job: drop a filter, simplify the configuration delivery, drop a configuration
+  section / key, plain file names, smaller input of the same type"""
   def variant(**kw):
     j = copy.deepcopy(job)
     j.update(kw)
-    c = dict(case)
-    c["job"] = j
-    c.pop("feat", None)
-    return c
+    return j
   fl = job.get("filters") or []
   for i in range(len(fl)):
     yield variant(filters=fl[:i] + fl[i + 1:])
+  if job.get("config_file") is not None and job.get("config") is not None:
+    yield variant(config=None)
+    yield variant(config_file=None)
+  if job.get("config_file") is not None and job.get("config") is None:
+    yield variant(config=job["config_file"], config_file=None)
   for which in ("config", "config_file"):
     cfg = job.get(which)
     if isinstance(cfg, dict):
       for m in list(cfg):
-        c2 = {k: v for k, v in cfg.items() if k != m}
-        yield variant(**{which: c2 or None}) if which == "config" else variant(**{which: c2})
+        yield variant(**{which: {k: v for k, v in cfg.items() if k != m}})
         if isinstance(cfg[m], dict) and len(cfg[m]) > 1:
           for k in list(cfg[m]):
             c3 = copy.deepcopy(cfg)
             del c3[m][k]
             yield variant(**{which: c3})
-  if job.get("config_file") is not None and job.get("config") is not None:
-    yield variant(config=None)
-  if job.get("config_file") is not None and job.get("config") is None:
-    yield variant(config=job["config_file"], config_file=None)
+      if not cfg:
+        yield variant(**{which: None})
   typ = INPUTS[job["input"]][0]
   if job.get("itype") is not None or job["in_name"] != "in." + typ:
     yield variant(itype=None, in_name="in." + typ)
@@ -731,14 +737,76 @@ def shrink_job_case(case):
       yield variant(input=alt)
 
 
+_DIAG_BUDGET = [60]      # per worker process: how many failing cases are minimised before falling back to a coarse disc
+
+
+def minimise(job, kind, verdict):
+  """Greedy 1-minimal reduction of a failing job (same verdict kind), so that the discriminator names only the
+  options that matter.  Bounded per process; beyond the budget the case is reported un-minimised."""
+  if _DIAG_BUDGET[0] <= 0:
+    return job, verdict, False
+  _DIAG_BUDGET[0] -= 1
+  improved = True
+  while improved:
+    improved = False
+    for cand in job_reductions(job):
+      v = equiv_verdict(cand)
+      if v["kind"] == kind:
+        job, verdict, improved = cand, v, True
+        break
+  return job, verdict, True
+
+
+_BASELINE = {}
+
+
+def _baseline(inp, otyp):
+  """reference bytes of the option-free conversion (for the non-triviality rule)"""
+  k = (inp, otyp)
+  if k not in _BASELINE:
+    _BASELINE[k] = _ref_of(mk_job(inp, otyp))
+  return _BASELINE[k]
+
+
+def check_equiv(case, acc):
+  job = case["job"]
+  v = equiv_verdict(job)
+  has_unknown = any(DocFilterNames.get(f) is None for f in job.get("filters") or [])
+  if v["kind"] is not None:
+    mjob, mv, minimal = minimise(job, v["kind"], v)
+    clause = "C19.reject.noout" if v["kind"] == "noout" else "C19.equiv"
+    disc = job_features(mjob) + ("" if v["kind"] == "bytes" else f",{v['kind']}") + ("" if minimal else ",unminimised")
+    acc.violation(clause, disc, {"job": mjob}, observed=mv["observed"], expected=mv["expected"], note=mv["note"])
+    acc.case(f"violation:{v['kind']}", nontrivial=True, key=_jkey(job))
+    return
+  ref_status, ref_val = v["ref"]
+  if v["unknown_refused"]:
+    acc.case("unknown-filter-refused", nontrivial=True, key=_jkey(job))
+  elif ref_status == "ok":
+    # non-triviality: options change the bytes relative to the option-free conversion of the same input
+    if not ref_val.strip():
+      acc.case("ok-empty-output", nontrivial=False, key=_jkey(job))
+      return
+    b_status, b_val = _baseline(job["input"], _ref_type(job.get("otype"), job["out_name"]))
+    changed = b_status != "ok" or b_val != ref_val
+    acc.case(("ok-changed" if changed else "ok-same-as-default") + ("-unknown-filter-skipped" if has_unknown else ""),
+             nontrivial=changed or bool(case.get("structural")), key=_jkey(job))
+  else:
+    acc.case("both-error:" + ref_val.split(":")[0], nontrivial=True, key=_jkey(job))
+
+
+def _jkey(job):
+  return json.dumps(jenc(job), sort_keys=True)
+
+
 def fam_equiv_config(inputs):
   prod = Product([inputs, OUT_TYPES, list(range(len(CONFIGS))), [[], ["lcd"]]])
 
   def decode(i):
     inp, out, ci, fl = prod.decode(i)
-    label, cfg = CONFIGS[ci]
+    _label, cfg = CONFIGS[ci]
     return {"job": mk_job(inp, out, config=copy.deepcopy(cfg), filters=fl)}
-  return Family("equiv-config", prod.n, decode, check_equiv, shrink=shrink_job_case, timeout=30,
+  return Family("equiv-config", prod.n, decode, check_equiv, timeout=60,
                 note="inputs x outputs x configurations (one key at a time, per-module products, cross product) x {[],[lcd]}, --config")
 
 
@@ -752,8 +820,8 @@ def fam_equiv_options(inputs):
     job = mk_job(inp, out, filters=fl, in_name=in_name, out_name=out_name, itype=itype, otype=otype)
     _deliver(job, dl, copy.deepcopy(RICH), copy.deepcopy(DECOY))
     structural = not (im == "ext" and om == "ext" and dl in ("none", "inline"))
-    return {"job": job, "feat": f"in={im},out={om},cfg={dl},filters={'+'.join(fl) or '-'}", "structural": structural}
-  return Family("equiv-options", prod.n, decode, check_equiv, shrink=shrink_job_case, timeout=30,
+    return {"job": job, "structural": structural}
+  return Family("equiv-options", prod.n, decode, check_equiv, timeout=60,
                 note="inputs x outputs x filter lists x input type selection x output type selection x configuration delivery")
 
 
@@ -806,8 +874,7 @@ def check_reject_config(case, acc):
                     note=f"{DOC_LINE[(mod, key)]} does not list null")
     acc.case("null-as-absent" if got == b_val else "null-changes-output", nontrivial=True, key=_jkey(job))
     return
-  disc = kind if kind != "wrong-type" else f"wrong-type:{_json_type(case['value'])}"
-  acc.violation(f"C19.reject.{mod}.{key}", disc, case,
+  acc.violation(f"C19.reject.{mod}.{key}", kind, case,
                 observed={"status": r["status"], "files": {k: len(v) for k, v in files.items()}},
                 expected="an error (exception or non-zero exit) and no output file",
                 note=f"undocumented value {json.dumps(case['value'])} accepted; documented: {DOC_LINE[(mod, key)]}")
@@ -993,10 +1060,32 @@ def _stable(o, depth=0):
   return _STRIP_ADDR.sub("", repr(o))[:200]
 
 
+def _digest_attr(items, name, v, mname, in_class):
+  import types
+  if isinstance(v, types.ModuleType):
+    return
+  f = getattr(v, "__func__", v)
+  if isinstance(f, (types.FunctionType, types.BuiltinFunctionType, types.MethodType, property)) or hasattr(f, "cache_info"):
+    if hasattr(f, "cache_info"):
+      items.append((name + ".cache", f.cache_info().currsize))
+    for dn in ("__defaults__", "__kwdefaults__"):
+      d = getattr(f, dn, None)
+      if d:
+        items.append((name + "." + dn, h64(_stable(d))))
+    return
+  if isinstance(v, type):
+    if v.__module__ == mname and not in_class:
+      for cn, cv in sorted(vars(v).items()):
+        if not cn.startswith("__"):
+          _digest_attr(items, f"{name}.{cn}", cv, mname, True)
+    return
+  items.append((name, h64(_stable(v))))
+
+
 def generic_digest():
-  """digest of every module-level and class-level container (and functools cache size) of the loaded ttconv modules"""
+  """digest of every module-level and class-level attribute value (containers, instances, scalars), functools cache
+  sizes and function default values of the loaded ttconv modules: where a conversion could leave something behind"""
   items = []
-  containers = (dict, list, set, bytearray)
   for mname in sorted(sys.modules):
     if not (mname == "ttconv" or mname.startswith("ttconv.")):
       continue
@@ -1006,18 +1095,7 @@ def generic_digest():
     for an, av in sorted(vars(mod).items()):
       if an.startswith("__"):
         continue
-      if isinstance(av, containers):
-        items.append((f"{mname}.{an}", h64(_stable(av))))
-      elif hasattr(av, "cache_info") and callable(getattr(av, "cache_info")):
-        items.append((f"{mname}.{an}.cache", av.cache_info().currsize))
-      elif isinstance(av, type) and av.__module__ == mname:
-        for cn, cv in sorted(vars(av).items()):
-          if cn.startswith("__"):
-            continue
-          if isinstance(cv, containers + (tuple,)):
-            items.append((f"{mname}.{an}.{cn}", h64(_stable(cv))))
-          elif hasattr(cv, "cache_info") and callable(getattr(cv, "cache_info")):
-            items.append((f"{mname}.{an}.{cn}.cache", cv.cache_info().currsize))
+      _digest_attr(items, f"{mname}.{an}", av, mname, False)
   return items
 
 
@@ -1136,7 +1214,7 @@ def _fp_key(fp):
   return json.dumps(jenc(fp), sort_keys=True)
 
 
-def make_expand(depth):
+def make_expand(depth, merged):
   def expand(hist, acc):
     if len(hist) >= depth:
       return []
@@ -1157,18 +1235,9 @@ def make_expand(depth):
       changed = _fp_key(res["fp"]) != _fp_key(fresh_ref("__pristine__")["fp"]) if "__pristine__" in _REF else True
       acc.case(f"{last['status']}{'-state-changed' if changed else '-state-pristine'}",
                nontrivial=bool(hist) and bool(last["files"]), key=("hist", tuple(h2)))
-      succ.append((jid, _fp_key(res["fp"])))
+      succ.append((jid, _fp_key(res["fp"]) if merged else ("history", tuple(h2))))
     return succ
   return expand
-
-
-def _history_check(depth):
-  expand = make_expand(depth)
-
-  def check(case, acc):
-    # replay of {"history": [...], "then": j}: re-expands the pre-state; the failing transition is among its successors
-    expand(list(case["history"]), acc)
-  return check
 
 
 def shrink_history(case):
@@ -1177,13 +1246,18 @@ def shrink_history(case):
     yield {"history": h[:i] + h[i + 1:], "then": case.get("then")}
 
 
-def fam_histories(depth):
+def fam_histories(depth, merged):
   def canon0(h):
-    return _fp_key(_REF["__pristine__"]["fp"]) if not h else ("init", repr(h))
-  return StateFamily("histories", [[]], make_expand(depth), depth, canon0=canon0, timeout=600,
-                     shrink=shrink_history, check=_history_check(depth),
-                     note=f"all sequences of <= {depth} jobs from a menu of {len(MENU_IDS)}; each history runs in its own fresh "
-                          "interpreter; states merge on the global-state fingerprint")
+    if merged:
+      return _fp_key(_REF["__pristine__"]["fp"]) if not h else ("init", repr(h))
+    return ("history", tuple(h))
+  if merged:
+    return StateFamily("histories", [[]], make_expand(depth, True), depth, canon0=canon0, timeout=900, shrink=shrink_history,
+                       note=f"sequences of <= {depth} jobs from a menu of {len(MENU_IDS)}, each history in its own fresh "
+                            "interpreter; two histories merge only if the process-global state fingerprint agrees")
+  return StateFamily("histories-all", [[]], make_expand(depth, False), depth, canon0=canon0, timeout=900, shrink=shrink_history,
+                     note=f"ALL sequences of <= {depth} jobs from the menu of {len(MENU_IDS)} (no merging), each in its own "
+                          "fresh interpreter")
 
 
 # ---------------------------------------------------------------------------------------------------
@@ -1293,17 +1367,18 @@ def gates():
 # ---------------------------------------------------------------------------------------------------
 
 def plan(tier, seed):
-  depth = 2 if tier == "quick" else 3
+  depth = 2 if tier == "quick" else 3     # all sequences up to this length; the merged search goes one job deeper
   # fresh-process references are computed once here (before the workers fork) and inherited by them
   if "__pristine__" not in _REF:
     _REF["__pristine__"] = run_driver([])
   for jid in MENU_IDS:
     fresh_ref(jid)
   return [
-    fam_histories(depth),
+    fam_histories(depth, False),
+    fam_histories(depth + 1, True),
     fam_hashseed(),
-    fam_equiv_config(INPUT_NAMES),
-    fam_equiv_options(INPUT_NAMES),
+    fam_equiv_config(CONFIG_INPUTS),
+    fam_equiv_options(ONE_PER_TYPE),
     fam_reject_config(),
     fam_reject_type(),
     fam_reject_shape(),
